@@ -71,7 +71,7 @@ check("C16", "exploration",
       "Pattern semantics: atoms by symbol, bonds by RDKit bond type, non-induced; stated in the evidence rule.",
       "bounded-exhaustive enumeration vs brute-force reference matcher + renumbering (metamorphic) invariance", "DESIGN.md 4/C16")
 check("C17", "exploration",
-      "All reactions of Rxn(A17,2) over a 13-molecule alphabet with anagram isomer pairs, aromatic/kekule pairs and ions x every permutation of each side x spelling profiles (thorough: 3-molecule sides): idempotence, normal form equal to the base, similarity exactly 1 for the three methods; symmetry and range over all ordered pairs of a fixed 60-reaction slice.",
+      "All reactions of Rxn(A17,2) over a 15-molecule alphabet with anagram isomer pairs, aromatic/saturated pairs, aromatic/kekule pairs and ions x every permutation of each side x spelling profiles (thorough: 3-molecule sides): idempotence, normal form equal to the base, similarity exactly 1 for the three methods; symmetry and range over all ordered pairs of a fixed 60-reaction slice.",
       "Stereo-free inputs; 'all equivalent spellings' = the finite Spell family.",
       "bounded-exhaustive enumeration of permutations/spellings, metamorphic oracle", "DESIGN.md 4/C17")
 check("C20", "exploration",
